@@ -306,14 +306,13 @@ Content-Length; distinct by case index";
             }
             wire.extend_from_slice(extra);
         } else if chunked {
-            // chunked wins: whatever a Content-Length next to it says (valid, disagreeing or not a number) plays no part
+            // chunked wins over a Content-Length that could apply; whether a Content-Length that could never apply (not a number,
+            // disagreeing) still fails the exchange next to chunked is not settled by the statement: both are accepted here
+            // (C04 - a valid head is reported - is the check that requires the exchange to succeed)
             accept.push(Expect::Body(payload.clone()));
             if matches!(cl_class, ClClass::Invalid | ClClass::Ambiguous(_)) {
-                ctx.label("bad-content-length-next-to-chunked(overridden)");
-            }
-            if cl_vals.iter().any(|v| v.bytes().any(|b| b < 0x20 || b == 0x7f)) {
-                // (a control byte makes the field line itself invalid: refusing such a head is not a framing decision)
                 accept.push(Expect::SendErr);
+                ctx.label("ambiguous:bad-content-length-next-to-chunked");
             }
             // two chunks when possible
             let st = ChunkStyle { hex: 0, zeros: 0, ext: 0 };
